@@ -271,7 +271,7 @@ def run(v, seed, shutdown_at):
                 if victim:
                     victim[0]["rq"].response.cancel()
                     info["cancelled"] = v["cancel_one"]
-            if v.get("cancel_obs") == "pending":
+            if v.get("cancel_obs") == "pending" and not prq.observation.cancelled:
                 prq.observation.cancel()
                 info["cancelled_obs"] = "pending"
             elif v.get("cancel_obs") == "established" and not orq.observation.cancelled:
